@@ -138,6 +138,20 @@ def run(ctx, pid=PID, families=(("commit", 120, 600), ("retry", 60, 300)), mutan
     win = core.window_scenarios(ctx, 24 if thorough else 8, run_no)
     run_no += len(win)
     core.execute_and_validate(ctx, pid, win, par=1)
+    if pid == "C01":
+        # a delivery function that panics: nothing of its batch is acknowledged to the input (child process: the panic ends it)
+        import json
+        outp = os.path.join(ctx.scratch, "c01_panic.json")
+        rc, txt = ctx.run_bin(ctx._core_bin, "^TestVerifC01Panic$", env={"VERIF_OUT": outp, "VERIF_C01_PANIC": "1"}, timeout=600)
+        if rc != 0 or not os.path.exists(outp):
+            raise vlib.Infra("C01 panic harness failed rc=%s:\n%s" % (rc, txt[-2000:]))
+        pr = json.load(open(outp))
+        if pr["sends"] < 1:
+            raise vlib.Infra("the panicking delivery function was never called: %s" % pr)
+        ctx.evaluations += 1
+        ctx.extra["delivery_function_panic"] = {k: pr[k] for k in ("child_panic", "sends", "commits", "survived")}
+        if pr["commits"] > 0:
+            ctx.classify([{"kind": "commit_after_delivery_panicked", "commits": pr["commits"], "sends": pr["sends"], "process_survived": pr["survived"]}])
     if pid in ("C01", "C09"):
         bud = core.budget_scenarios(ctx, run_no)
         run_no += len(bud)
